@@ -12,7 +12,7 @@ from concurrent.futures import ThreadPoolExecutor
 from common import *
 
 CXX = os.environ.get("VERIF_CXX", "g++")
-SAN = ["-fsanitize=address,undefined", "-fno-sanitize-recover=all", "-fno-omit-frame-pointer"]
+SAN = ["-fsanitize=address,undefined,float-cast-overflow", "-fno-sanitize-recover=all", "-fno-omit-frame-pointer"]
 BASEFLAGS = ["-std=gnu++17", "-O1", "-g1", "-DNDEBUG", "-D_GLIBCXX_ASSERTIONS",
              "-DDJINTEROP_SOURCE", "-DDjInterop_EXPORTS", "-DDJINTEROP_VERIF",
              "-Wno-error", "-w"] + SAN
